@@ -120,8 +120,12 @@ class CB:
         # the action loop: iterator next feeding next_state (DFS) or the adaptor itself
         # --- state_count ---
         fa = [c for c in b.calls_to('fetch_add')]
-        if len(fa) != 1:
-            raise AnchorMissing('%s: expected one fetch_add (state_count), found %d' % (b.path, len(fa)))
+        if not fa:
+            raise AnchorMissing('%s: no fetch_add (state_count) found' % b.path)
+        roots = set(repr(noref(b.val(c.args[0]))) for c in fa)
+        if len(roots) != 1:
+            raise AnchorMissing('%s: fetch_add on several different counters' % b.path)
+        self.fetch_adds = fa
         self.fetch_add = fa[0]
         # --- visited-set arbitration ---
         self.arb = []  # list of (call, new_edges, seen_edges)
@@ -136,8 +140,22 @@ class CB:
             for c in b.calls_to('DashSet::insert'):
                 if is_arg(b.val(c.args[0]), self.p_generated):
                     self.arb.append((c, b.branch(c, True), b.branch(c, False)))
+        self.arb_atomic = True
+        if not self.arb and not self.sim:
+            # a membership test followed by a separate insert: not atomic, but still the place
+            # where "new" and "seen" are told apart (C05-R8 reports the non-atomicity)
+            for c in b.calls_to('DashMap::contains_key', 'DashSet::contains'):
+                if is_arg(b.val(c.args[0]), self.p_generated) and b.branch(c, False):
+                    self.arb.append((c, b.branch(c, False), b.branch(c, True)))
+                    self.arb_atomic = False
         if not self.arb:
             raise AnchorMissing('%s: visited-set arbitration not found' % b.path)
+        # blocks entered once a state has been (or is being) marked visited
+        if self.arb_atomic:
+            self.marked = [e[1] for (c, n_, s_) in self.arb for e in n_]
+        else:
+            self.marked = [c.bb for c in b.calls_to('DashMap::insert', 'DashSet::insert')
+                           if is_arg(b.val(c.args[0]), self.p_generated)]
         for (c, new, seen) in self.arb:
             if not new or not seen:
                 raise AnchorMissing('%s: arbitration result of %r is not branched on' % (b.path, c))
